@@ -15,7 +15,7 @@ Oracle per case
   * no rows exist for a triple that was not given; run() does not raise.
 Nothing is sampled.
 """
-import os, itertools, traceback
+import os, json, itertools, traceback
 
 from vf.core import Check, REPO
 
@@ -75,7 +75,7 @@ def touches(f, t):
 
 
 def build(case):
-    E, L, V = P.build_components(case.get('faults') or ())
+    E, L, V = P.build_components(case.get('faults') or (), case.get('chunk'))
     form = case['form']
     if form == 'triples':
         exp = Experiment([(E[e], L[l], V[v]) for e, l, v in case['triples']])
@@ -113,7 +113,7 @@ def execute(case):
     CobaContext.learning_info.clear()
     try:
         exp, (E, L, V) = build(case)
-        res = exp.run(processes=1, maxchunksperchild=0, maxtasksperchunk=0)
+        res = exp.run(processes=1, maxchunksperchild=0, maxtasksperchunk=case.get('mt', 0), quiet=bool(case.get('quiet')))
         t = res.interactions
         cols = tuple(t.columns)
         data = [list(t[c]) for c in cols]
@@ -149,7 +149,7 @@ def kind_name(f): return f['at']
 
 def findings(case, alone):
     """All deviations of one real run of `case` from the statement: list of (mode, base_feature, what).
-    `alone(form, t)` gives the rows of triple t run alone, unfaulted, with a pristine learner."""
+    `alone(case, t)` gives the rows of triple t run alone, unfaulted, with a pristine learner."""
     trip = triples_of(case)
     faults = case.get('faults') or []
     form = case['form']
@@ -181,7 +181,7 @@ def findings(case, alone):
                 out.append(('failing triple has rows', 'fault at ' + '+'.join(sorted({kind_name(f) for f in hit})),
                             f'triple {t}: {P.fault_text(hit[0])} is raised inside its evaluation, yet {len(got)} rows were recorded: {got[:2]}'))
             continue
-        ref = alone(form, t)
+        ref = alone(case, t)
         par = [f for f in faults if touches(f, t)]
         info['statuses'].append(('P' if par else 'H', len(got)))
         if ref is None: continue                          # the alone-run itself is broken: reported by the single-triple case
@@ -258,12 +258,19 @@ class C03(Check):
         quick = tier == 'quick'
         ks = (0, 1) if quick else (0, 1, 2)
         maxlen = 3 if quick else 4
-        sel = [[0], [1], [0, 1], [1, 0]]
+        # (chunk mode, maxtasksperchunk): bare environments; each environment piped into its own Chunk; both into one Chunk
+        # object (every environment task in one ProcessTasks.filter call); the latter split into chunks of <=2 tasks
+        modes = [(None, 0), ('shared', 0)] if quick else [(None, 0), ('per-env', 0), ('shared', 0), ('shared', 2)]
 
-        def with_faults(base, trip, with_eval=True):
-            yield {**base, 'faults': []}
-            for f in faults_for(trip, ks, with_eval):
-                yield {**base, 'faults': [f]}
+        def expand(base, trip, with_eval=True, modes=modes, ks=ks):
+            fs = faults_for(trip, ks, with_eval)
+            for chunk, mt in modes:
+                b = dict(base)
+                if chunk: b['chunk'] = chunk
+                if mt: b['mt'] = mt
+                yield {**b, 'faults': []}
+                for f in fs:
+                    yield {**b, 'faults': [f]}
 
         def lists(n):
             for trip in itertools.permutations(ALL8, n):
@@ -271,77 +278,117 @@ class C03(Check):
 
         for n in (1, 2):
             for trip in lists(n):
-                yield from with_faults({'form': 'triples', 'triples': trip}, trip)
+                yield from expand({'form': 'triples', 'triples': trip}, trip)
+        # the same with quiet=True (only exceptions are logged)
+        for n in (1, 2):
+            for trip in lists(n):
+                yield from expand({'form': 'triples', 'triples': trip, 'quiet': True}, trip, modes=modes[:1] + modes[-1:])
         # 2-tuple lists (default evaluator supplied by coba): lists over the 4 (environment, learner) pairs
         pairs4 = [(e, l, 0) for e in (0, 1) for l in (0, 1)]
         for n in (1, 2, 3) if quick else (1, 2, 3, 4):
             for trip in itertools.permutations(pairs4, n):
                 trip = [list(t) for t in trip]
-                yield from with_faults({'form': 'pairs', 'triples': trip}, trip, with_eval=False)
+                yield from expand({'form': 'pairs', 'triples': trip}, trip, with_eval=False)
         # cross-product constructor forms (lists, and single objects passed bare)
-        opts = sel + [0, 1]
+        opts = [[0], [1], [0, 1], [1, 0], 0, 1]
         for envs in opts:
             for lrns in opts:
                 for vals in opts:
                     base = {'form': 'cross', 'envs': envs, 'lrns': lrns, 'vals': vals}
-                    yield from with_faults(base, triples_of(base))
+                    yield from expand(base, triples_of(base))
         for n in range(3, maxlen + 1):
             for trip in lists(n):
-                yield from with_faults({'form': 'triples', 'triples': trip}, trip)
+                yield from expand({'form': 'triples', 'triples': trip}, trip)
         if quick: return
         # two faults
         for n in (1, 2, 3):
             for trip in lists(n):
                 fs = faults_for(trip, (0, 1))
-                for f, g in itertools.combinations(fs, 2):
-                    yield {'form': 'triples', 'triples': trip, 'faults': [f, g]}
+                for chunk in (None, 'shared'):
+                    for f, g in itertools.combinations(fs, 2):
+                        c = {'form': 'triples', 'triples': trip, 'faults': [f, g]}
+                        if chunk: c['chunk'] = chunk
+                        yield c
 
     # ---------------------------------------------------------------- execution
 
     def setup(self, tier):
         self._alone = {}
+        self._memo = {}
 
-    def alone(self, form, t):
-        """Rows of triple t run alone (same constructor style, no fault, fresh components); None when that run is unusable."""
+    def alone(self, case, t):
+        """Rows of triple t run alone (same tuple style, same kind of environment object, no fault, fresh components);
+        None when that run is unusable."""
         if not hasattr(self, '_alone'): self._alone = {}
-        key = ('pairs' if form == 'pairs' else 'triples', tuple(t))
+        key = ('pairs' if case['form'] == 'pairs' else 'triples', 'per-env' if case.get('chunk') else None, tuple(t))
         if key not in self._alone:
-            ex = execute({'form': key[0], 'triples': [list(t)], 'faults': []})
+            ex = execute({'form': key[0], 'chunk': key[1], 'triples': [list(t)], 'faults': []})
             rows = None if 'exc' in ex else ex['rows'].get(ident_of(t)) if set(ex['rows']) <= {ident_of(t)} else None
             self._alone[key] = rows or None
-            self._alone_runs = getattr(self, '_alone_runs', 0) + 1
         return self._alone[key]
+
+    def simpler(self, case):
+        """Variants of a case with one dimension set to something simpler (used to attribute a violation to its
+        simplest form, so that one root cause gets one key whatever other ingredients the violating case had)."""
+        faults = case.get('faults') or []
+        if len(faults) == 2:
+            yield {**case, 'faults': [faults[0]]}
+            yield {**case, 'faults': [faults[1]]}
+        if len(faults) == 1: yield {**case, 'faults': []}
+        if case.get('mt'): yield {k: v for k, v in case.items() if k != 'mt'}
+        if case.get('chunk'):
+            yield {k: v for k, v in case.items() if k not in ('chunk', 'mt')}
+            if case['chunk'] == 'shared' and not case.get('mt'): yield {**case, 'chunk': 'per-env'}
+        if case.get('quiet'): yield {k: v for k, v in case.items() if k != 'quiet'}
+        if case['form'] != 'triples':
+            c = {k: v for k, v in case.items() if k not in ('envs', 'lrns', 'vals')}
+            yield {**c, 'form': 'triples', 'triples': [list(t) for t in triples_of(case)]}
+        trip = triples_of(case)
+        if case['form'] != 'cross' and len(trip) > 1:
+            on = [tuple(f['on']) for f in faults]
+            for i in reversed(range(len(trip))):
+                if trip[i] in on: continue
+                yield {**case, 'triples': [list(t) for j, t in enumerate(trip) if j != i]}
+
+    def examine(self, case, acc, depth=0):
+        """Findings of a case, attributed to the simplest variant that still violates.  -> (violates?, info of the run)."""
+        if not hasattr(self, '_memo'): self._memo = {}
+        key = json.dumps(case, sort_keys=True)
+        if key in self._memo: return self._memo[key]
+        found, info = findings(case, self.alone)
+        trip = triples_of(case)
+        faults = case.get('faults') or []
+        if len(trip) == 1 and not faults and self.alone(case, trip[0]) is None:
+            found.append(('single triple run alone yields no usable rows', '', f'triple {trip[0]} run alone without faults gives no rows (or raises)'))
+        sig = (tuple(info['statuses']), info['nfault_entries'])
+        self._memo[key] = (bool(found), sig)
+        if not found: return False, sig
+        if depth < 12:
+            for v in self.simpler(case):
+                if self.examine(v, acc, depth + 1)[0]: return True, sig
+        needs = []
+        if faults: needs.append('with a fault at ' + '+'.join(sorted({f['at'] for f in faults})))
+        if case.get('chunk'): needs.append({'per-env': 'environments piped into a Chunk', 'shared': 'environments piped into one shared Chunk'}[case['chunk']])
+        if case.get('mt'): needs.append('maxtasksperchunk>0')
+        if case.get('quiet'): needs.append('quiet=True')
+        if case['form'] != 'triples': needs.append(f"{case['form']} constructor form")
+        for mode, feat, what in found:
+            parts = ([feat] if feat else []) + [n for n in needs if not (feat.startswith('fault at') and n.startswith('with a fault'))]
+            acc.violation(f"Experiment.run|{mode}|{'; '.join(parts) or 'any experiment'}", what, witness=case)
+        return True, sig
 
     def run_case(self, case, acc):
         trip = triples_of(case)
-        faults = case.get('faults') or []
-        found, info = findings(case, self.alone)
+        violated, sig = self.examine(case, acc)
         acc.count('experiment_runs')
         acc.count('triples_checked', len(trip))
-        acc.count('failing_evaluations', info['reached'])
-        if len(trip) == 1 and not faults and self.alone(case['form'], trip[0]) is None:
-            found.append(('single triple run alone yields no usable rows', '', f'triple {trip[0]} run alone without faults gives no rows (or raises)'))
-
         lcount = {}
         for t in trip: lcount[t[1]] = lcount.get(t[1], 0) + 1
-        if len(trip) >= 2 and (max(lcount.values()) > 1 or info['reached'] > 0): acc.mark_nontrivial()
-
-        if found:
-            # discriminate: does the failure need the faults / the constructor form?
-            modes_nofault = modes_plain = None
-            if faults:
-                modes_nofault = {m for m, _, _ in findings({**case, 'faults': []}, self.alone)[0]}
-            if case['form'] != 'triples':
-                plain = {'form': 'triples', 'triples': [list(t) for t in trip], 'faults': faults}
-                modes_plain = {m for m, _, _ in findings(plain, self.alone)[0]}
-            for mode, feat, what in found:
-                parts = [feat] if feat else []
-                if modes_nofault is not None and mode not in modes_nofault and not feat.startswith('fault at') and not feat.startswith('fewer'):
-                    parts.append('only with a fault at ' + '+'.join(sorted({f['at'] for f in faults})))
-                if modes_plain is not None and mode not in modes_plain:
-                    parts.append(f"only in the {case['form']} constructor form")
-                acc.violation(f"Experiment.run|{mode}|{'; '.join(parts) or 'any experiment'}", what)
-        acc.outcome((tuple(info['statuses']), info['nfault_entries'], tuple(sorted({m for m, _, _ in found}))))
+        reached = sum(1 for t in trip if any(reachable(f, t) for f in case.get('faults') or []))
+        acc.count('failing_evaluations', reached)
+        if len(trip) >= 2 and (max(lcount.values()) > 1 or reached > 0): acc.mark_nontrivial()
+        if violated: acc.count('violating_cases')
+        acc.outcome((sig, violated))
 
 
 CHECK = C03()
